@@ -287,7 +287,7 @@ fn c04_new_takeover_or_wipe() {
 fn c16_usability_probe_agrees_with_client_open() {
     use crate::reader::verif_read::{le_u16, le_u32, MODEL_CONTENT, MODEL_MAX};
     use crate::reader::verif_read::{verif_bad_arg, verif_errno, verif_file, verif_file_len, verif_is_dir, verif_live_mappings,
-                                    verif_missing, verif_mmap_fails, verif_open_fds};
+                                    verif_missing, verif_mmap_fails, verif_open_fds, verif_fd};
     let content: [u8; MODEL_CONTENT] = kani::any();
     let len: usize = kani::any();
     kani::assume(len <= MODEL_MAX);
@@ -301,6 +301,9 @@ fn c16_usability_probe_agrees_with_client_open() {
         verif_is_dir = is_dir as i32;
         verif_mmap_fails = mmap_fails as i32;
         verif_errno = 2;
+        let fd: i32 = kani::any();
+        kani::assume(0 <= fd && fd < 1024);
+        verif_fd = fd;
     }
     let r = ShmWriter::is_usable_segment(Path::new("/p"));
     let has_header = len >= 16;
